@@ -51,10 +51,11 @@ type scenario struct {
 	early      bool
 	spare      int
 	dataGates  bool
+	pre        []string // uploads of an earlier run (each committed), after which the store is restarted
 }
 
 var contents = map[string]string{
-	"A3": "aaa", "B5": "bbbbb", "C8": "cccccccc", "D4": "dddd", "F8": "ffffffff", "G8": "gggggggg", "H8": "hhhhhhhh", "I8": "iiiiiiii",
+	"A3": "aaa", "B5": "bbbbb", "C8": "cccccccc", "D4": "dddd", "F8": "ffffffff", "G8": "gggggggg", "H8": "hhhhhhhh", "I8": "iiiiiiii", "E1": "e", "P1": "p", "Q1": "q", "D3": "ddd",
 }
 
 func body(sc scenario) func() {
@@ -66,6 +67,20 @@ func body(sc scenario) func() {
 		defer cancel()
 		putLoopExited := false
 		var putLoopExitTime time.Time
+		if len(sc.pre) > 0 {
+			// An earlier run: each upload committed on its own (one epoch each, several epochs per block), then the
+			// process is gone (every issued I/O operation survived) and the store is started again on the media.
+			s0 := lstore.OpenWith(g, med, lstore.OpenOptions{Ctx: context.Background()})
+			for _, n := range sc.pre {
+				o := lstore.CASObj(n, "", []byte(contents[n]))
+				if err := s0.PutOK(o.Digest, o.Content); err != nil {
+					vsched.HarnessFail("earlier run: Put(%s): %v", n, err)
+				}
+				vsched.WaitQuiescent()
+			}
+			med = s0.Media.Clone()
+			med.Data.Gates = sc.dataGates
+		}
 		s := lstore.OpenWith(g, med, lstore.OpenOptions{Ctx: ctx, OnPutLoopExit: func() { putLoopExited = true; putLoopExitTime = vsched.Now() }})
 		retry := s.Geo.ErrorRetry
 		med.Data.SyncFaults = sc.syncFaults
@@ -285,6 +300,7 @@ func main() {
 		{name: "rotation", uploads: [][]string{{"C8", "F8", "G8", "H8"}}, spare: 1},
 		{name: "rotation-two-uploaders", uploads: [][]string{{"C8", "F8"}, {"G8", "H8"}}, spare: 1},
 		{name: "rotation-twice", uploads: [][]string{{"C8", "F8", "G8", "H8", "I8"}}, spare: 2},                        // a second release while the state write for the first is in flight
+		{name: "after-restart", pre: []string{"P1", "E1", "Q1"}, uploads: [][]string{{"D3"}}, spare: 1}, // three committed epochs on two restored blocks (more epochs than blocks); the upload lands in a restored block
 		{name: "upload-during-sync", uploads: [][]string{{"A3", "@sync", "D4"}}, spare: 1, dataGates: true},            // D4 lands in A3's block and is finalized while the sync covering A3 is in flight
 		{name: "rotation-failed-uploads", uploads: [][]string{{"C8", "F8!", "G8", "A3!", "H8", "I8", "C8"}}, spare: 4}, // aborted uploads into blocks that are later released
 		{name: "rotation-nospare", uploads: [][]string{{"C8", "F8", "G8", "H8", "I8"}}, spare: 0},
